@@ -1,5 +1,6 @@
 import ComposeVerif.Lemmas.EnvLayers
 import ComposeVerif.Lemmas.EnvLayersDotenv
+import ComposeVerif.Lemmas.EnvLayersFail
 import ComposeVerif.Neg.C16
 /-!
 # C16 — service environment and labels are layered with the documented precedence
@@ -178,6 +179,23 @@ theorem parseLines_is_dotenv_parse (look : Look) (ls : List Line) (hb : Line.bad
   rw [CV.Dotenv.parse_render look _ hwf]
   exact parseLines_eq_evalFrom look ls [] hb
 
+/-- **parseLines_is_dotenv_parse_text.**  The same for *every* tokenised file, rejected lines included: the text the
+    harness writes (`renderText`: `KEY=<template text>⏎`, `KEY⏎`, and `A B=1⏎` for a rejected line) is parsed by C18's
+    model exactly as `parseLines` parses the tokens — the first rejected line is C18's "key cannot contain a space"
+    (`key_with_space_err`) after the lines before it, whatever follows it. -/
+theorem parseLines_is_dotenv_parse_text (look : Look) (ls : List Line)
+    (hwf : CV.Dotenv.WF (toDotenvLines ls) = true) :
+    ofPOut (CV.Dotenv.parse (renderText ls) look) = parseLines look ls [] := by
+  by_cases hb : Line.bad ∈ ls
+  · obtain ⟨pre, post, e, hp⟩ := split_first_bad ls hb
+    subst e
+    apply parse_text_with_bad look pre post hp
+    rw [toDotenvLines_append] at hwf
+    simp only [CV.Dotenv.WF, List.all_append, Bool.and_eq_true] at hwf ⊢
+    exact hwf.1
+  · rw [renderText_good ls hb]
+    exact parseLines_is_dotenv_parse look ls hb hwf
+
 /-! ## labels -/
 
 /-- **labels_precedence.**  Labels are layered the same way: `labels` over the last label file that
@@ -297,6 +315,88 @@ theorem missing_label_file_err (fs : FS) (discard : Bool) (s : Service) (p : Str
   obtain ⟨e, he⟩ := key s.labelFiles [] hp
   exact ⟨e, by simp [resolveServiceLabels, he]⟩
 
+/-! ## env_file formats (`dotenv.RegisterFormat`) -/
+
+/-- an `env_file` entry with a format that is not registered is an error as soon as something exists at its path -/
+theorem unregistered_format_err (fs : FS) (f : EnvFile) (look : Look) (nd : Node)
+    (hp : fs f.path = some nd) (hnd : nd ≠ .notdir) (hf : f.format ≠ []) (hreg : fs.formats f.format = none) :
+    loadEnvFile fs f look = .error .format := by
+  unfold loadEnvFile
+  rw [hp]
+  cases nd with
+  | notdir => exact absurd rfl hnd
+  | dir => simp [loadMappingFile, hp, hf, parseWithFormat, hreg]
+  | file ls => simp [loadMappingFile, hp, hf, parseWithFormat, hreg]
+
+/-- with a registered format the registered parser decides the content of the layer (and its errors); it is handed the
+    same lookup chain as the dotenv parser -/
+theorem registered_format_used (fs : FS) (f : EnvFile) (look : Look) (nd : Node) (p : FormatParser)
+    (hp : fs f.path = some nd) (hnd : nd ≠ .notdir) (hf : f.format ≠ []) (hreg : fs.formats f.format = some p) :
+    loadEnvFile fs f look = p nd look := by
+  unfold loadEnvFile
+  rw [hp]
+  cases nd with
+  | notdir => exact absurd rfl hnd
+  | dir => simp [loadMappingFile, hp, hf, parseWithFormat, hreg]
+  | file ls => simp [loadMappingFile, hp, hf, parseWithFormat, hreg]
+
+/-- the format is not consulted for a missing file: required ⇒ `notFound`, optional ⇒ skipped, whatever is registered -/
+theorem format_ignored_when_missing (fs : FS) (f : EnvFile) (look : Look) (hm : Missing fs f.path) :
+    loadEnvFile fs f look = if f.required then .error .notFound else .ok [] :=
+  loadEnvFile_missing fs f look hm
+
+/-- label files are always read by the dotenv parser: the registry does not matter -/
+theorem label_files_ignore_formats (fs : FS) (g : Str → Option FormatParser) (p : Str) (look : Look) :
+    loadLabelFile { fs with formats := g } p look = loadLabelFile fs p look := by
+  unfold loadLabelFile
+  show (match fs.node p with | none => _ | some .notdir => _ | some _ => _) = (match fs.node p with | none => _ | some .notdir => _ | some _ => _)
+  cases h : fs.node p with
+  | none => rfl
+  | some nd =>
+    cases nd with
+    | notdir => rfl
+    | dir => simp [loadMappingFile, h]
+    | file ls => simp [loadMappingFile, h]
+
+/-! ## which file fails -/
+
+/-- **env_failure_spec.**  Environment resolution of a service succeeds iff the specification `envFailureFrom` finds no
+    failing file, and otherwise fails with exactly the error of the **first** failing file in `env_file` order: missing though
+    required (`notFound`), a directory (`read`), a format (`format`), a rejected line (`parse`), or a value whose template is an
+    error of the interpolation grammar — e.g. an unsatisfied `${X:?msg}` — judged in that line's lookup chain (earlier files,
+    project environment, earlier lines) (`template`). -/
+theorem env_failure_spec (penv : List (Key × Str)) (fs : FS) (discard : Bool) (s : Service) (hwf : WFFS fs) :
+    FailsAs (resolveServiceEnv penv fs discard s) (envFailureFrom penv fs [] s.envFiles) := by
+  have h := loadEnvFiles_fails_as penv fs hwf s.envFiles [] [] distinct_nil (fun _ => rfl)
+  unfold resolveServiceEnv
+  cases hl : loadEnvFiles penv fs s.envFiles [] with
+  | error e => rw [hl] at h; exact h
+  | ok acc => rw [hl] at h; exact h
+
+/-- **labels_failure_spec.**  The same for label files (a missing label file always fails; references see earlier label
+    files and earlier lines only). -/
+theorem labels_failure_spec (fs : FS) (discard : Bool) (s : Service) (hwf : WFFS fs) :
+    FailsAs (resolveServiceLabels fs discard s) (labelFailureFrom fs [] s.labelFiles) := by
+  have h := loadLabelFiles_fails_as fs hwf s.labelFiles [] [] distinct_nil (fun _ => rfl)
+  unfold resolveServiceLabels
+  cases hl : loadLabelFiles fs s.labelFiles [] with
+  | error e => rw [hl] at h; exact h
+  | ok acc => rw [hl] at h; exact h
+
+/-- a line `k=${x:?msg}` whose variable is unset in the line's lookup chain fails the file with `template` … -/
+theorem unsatisfied_required_var_fails (look : Look) (pre post : List Line) (k x m : Str)
+    (hx : lineLook look pre x = none) :
+    fileFailureFrom look pre (Line.assign k [CV.Template.Seg.op x .colonQ [.lit m]] :: post) = some .template := by
+  simp [fileFailureFrom, CV.Template.evalL, CV.Template.Seg.eval, CV.Template.opSpec, hx]
+
+/-- … and does not when an earlier file, the project environment or an earlier line gives it a non-empty value -/
+theorem satisfied_required_var_passes (look : Look) (pre post : List Line) (k x m v : Str)
+    (hx : lineLook look pre x = some v) (hv : v ≠ []) :
+    fileFailureFrom look pre (Line.assign k [CV.Template.Seg.op x .colonQ [.lit m]] :: post) =
+      fileFailureFrom look (pre ++ [Line.assign k [CV.Template.Seg.op x .colonQ [.lit m]]]) post := by
+  have : (some v == some ([] : Str)) = false := by simp [hv]
+  simp [fileFailureFrom, CV.Template.evalL, CV.Template.Seg.eval, CV.Template.opSpec, hx, this]
+
 /-! ## discarding the file references -/
 
 /-- **discard_only_drops_refs.**  Resolving with the discard option is resolving without it and then
@@ -388,11 +488,12 @@ theorem env_order_independent (penv penv' : List (Key × Str)) (fs : FS) (discar
     agrees with the list-order model — it fails iff the model fails, with the same error, and otherwise yields the same
     value at every key. -/
 theorem env_any_iteration_order (penv : List (Key × Str)) (fs : FS) (discard : Bool) (s : Service)
-    (hd : Distinct s.environment) (out : Except Err (List (Key × Option Str))) (h : ServiceEnvRun penv fs s out) :
+    (hreg : DefaultFormats fs) (hd : Distinct s.environment) (out : Except Err (List (Key × Option Str)))
+    (h : ServiceEnvRun penv fs s out) :
     Agrees out ((resolveServiceEnv penv fs discard s).map (·.environment)) := by
   obtain ⟨env1, hres, r, hrun, hout⟩ := h
   have hr := filesRun_agrees (loadEnvFile fs) (envChain penv) (envChain_congr penv)
-    (fun f look vars => loadEnvFile_distinct fs f look vars) s.envFiles [] r hrun [] (MapEq.refl _)
+    (fun f look vars => loadEnvFile_distinct fs f look vars hreg) s.envFiles [] r hrun [] (MapEq.refl _)
   rw [← loadEnvFiles_eq_filesLoop] at hr
   unfold resolveServiceEnv
   cases hl : loadEnvFiles penv fs s.envFiles [] with
@@ -596,11 +697,11 @@ def f1 : List Line := [.assign ['A'] [.lit ['1']], .assign ['B'] [.lit ['b'], .v
   .assign ['H'] [.op ['N', 'O'] .colonDash [.lit ['d']], .esc, .var ['A'] false]]
 def f2 : List Line := [.assign ['A'] [.lit ['2']], .assign ['D'] [.lit ['d']], .assign ['G'] [.var ['A'] true]]
 
-def fs0 : FS := fun p =>
+def fs0 : FS := { node := fun p =>
   if p = ['f', '1'] then some (.file f1)
   else if p = ['f', '2'] then some (.file f2)
   else if p = ['d'] then some .dir
-  else none
+  else none }
 
 def penv0 : List (Key × Str) := [(['C'], ['c'])]
 
@@ -612,8 +713,12 @@ def s0 : Service :=
 
 /-- `WFFS`: every value of every file is an unambiguous template -/
 theorem wffs0 : WFFS fs0 := by
+  refine ⟨?_, fun _ => rfl⟩
   intro p ls h
+  show WFLines ls
+  change fs0.node p = _ at h
   unfold fs0 at h
+  simp only at h
   split at h
   · simp only [Option.some.injEq, Node.file.injEq] at h; subst h
     exact wfLines_of_B _ (by decide)
@@ -640,6 +745,32 @@ example : Line.bad ∉ f1 ∧ CV.Dotenv.WF (toDotenvLines f1) = true ∧ CV.Dote
       ['A', '=', '2', '\n', 'D', '=', 'd', '\n', 'G', '=', '$', '{', 'A', '}', '\n'] := by
   refine ⟨?_, by decide, by decide, by decide⟩
   simp [f1]
+
+/-- hypotheses of `parseLines_is_dotenv_parse_text` with a rejected line in the middle: the text is `A=1⏎A B=1⏎D=d⏎` -/
+example : CV.Dotenv.WF (toDotenvLines [.assign ['A'] [.lit ['1']], .bad, .assign ['D'] [.lit ['d']]]) = true ∧
+    renderText [.assign ['A'] [.lit ['1']], .bad, .assign ['D'] [.lit ['d']]] =
+      ['A', '=', '1', '\n', 'A', ' ', 'B', '=', '1', '\n', 'D', '=', 'd', '\n'] ∧
+    parseLines (fun _ => none) [.assign ['A'] [.lit ['1']], .bad, .assign ['D'] [.lit ['d']]] [] = .error .parse := by
+  decide
+
+/-- `env_failure_spec` on concrete files: `f1` sets `A`; a second file requires `A` (satisfied through the earlier file) and
+    `NOPE` (unsatisfied): the service fails at that file with `template`, and the specification says so -/
+example :
+    let fsq : FS := { node := fun p => if p = ['f', '1'] then some (.file f1)
+      else if p = ['q'] then some (.file [.assign ['X'] [.op ['A'] .colonQ [.lit ['m']]], .assign ['Y'] [.op ['N', 'O', 'P', 'E'] .q [.lit ['m']]]])
+      else none }
+    (resolveServiceEnv penv0 fsq false { s0 with envFiles := [⟨['f', '1'], true, []⟩, ⟨['q'], true, []⟩, ⟨['z'], true, []⟩] }).map (·.environment)
+      = .error .template ∧
+    envFailureFrom penv0 fsq [] [⟨['f', '1'], true, []⟩, ⟨['q'], true, []⟩, ⟨['z'], true, []⟩] = some .template := by
+  decide
+
+/-- hypotheses of `registered_format_used` / `unregistered_format_err`: `f1` read through the registered `c16kv` parser
+    gives the literal text `b${A}` to `B` (no interpolation); the same entry without registration is the `format` error -/
+example :
+    let fsr : FS := { fs0 with formats := fun n => if n = ['k', 'v'] then some kvParser else none }
+    (loadEnvFile fsr ⟨['f', '1'], true, ['k', 'v']⟩ (fun _ => none)).map (lookup ['B']) = .ok (some ['b', '$', '{', 'A', '}']) ∧
+    loadEnvFile fs0 ⟨['f', '1'], true, ['k', 'v']⟩ (fun _ => none) = .error .format := by
+  decide
 
 /-- hypotheses of `later_file_wins` hold: `f2` is the last file, gives `A` a value, `environment` does not mention `A` -/
 example : envContents fs0 s0.envFiles = [f1] ++ f2 :: [] ∧ lookup ['A'] s0.environment = none ∧
